@@ -9,7 +9,7 @@ from hypothesis import strategies as st
 
 ID = "C13"
 TECHNIQUE = 'Hypothesis-generated axes/data + complete enumeration of lengths, against the defining Fourier sum (dense matrix product) and the identity round trip'
-LEVEL = '(Conversions and transforms also executed inside an energy-units context, complex values also put into a function built from real ones by assignment or apply_to_data, time axes also re-used after handing out their frequency axis and being shifted to zero.) Every length 2..257 (and lengths around powers of two up to 2049), both domains and both axis types are enumerated with fixed data, and starts, steps and complex data are generated; the returned transform is compared point by point with the defining sum on the returned axis, FT followed by inverse FT with the original values and axis, and the axis round trip element-wise (tolerance 1e-10*N relative).'
+LEVEL = '(Conversions and transforms also executed inside an energy-units context, complex values also put into a function built from real ones by assignment or apply_to_data, time axes also re-used after handing out their frequency axis and being shifted to zero.) Every length 2..257 (and lengths around powers of two up to 2049), both domains and both axis types are enumerated with fixed data, and starts, steps and complex data are generated; the returned transform is compared point by point with the defining sum on the returned axis, FT followed by inverse FT with the original values and axis, and the axis round trip element-wise (tolerance 1e-10*N relative). Later additions: round trip through a copy of the conjugate axis; backwards-running axes; windowed transforms.'
 NOTE = 'Inverse-first round trips and round trips of upper-half frequency-domain functions are not claimed (not stated by the property / not injective). Lengths are enumerated to 257, sampled to 1200 and probed around powers of two up to 2049 (thorough tier).'
 EXHAUSTIVE = True
 RULE = ("generated: (domain time|frequency, axis type complete|upper-half, length 2..1200, start, step, complex "
